@@ -826,6 +826,28 @@ func emptied(t kmip.KeyFormatType) (kmip.KeyMaterial, bool) {
 	return kmip.KeyMaterial{Bytes: &b}, true
 }
 
+// valued: the material of the format with valid parameters (curve, modulus) and the given bytes as its value
+func valued(t kmip.KeyFormatType, v []byte) kmip.KeyMaterial {
+	n := new(big.Int).SetBytes(v)
+	switch t {
+	case kmip.KeyFormatTypeTransparentSymmetricKey:
+		return kmip.KeyMaterial{TransparentSymmetricKey: &kmip.TransparentSymmetricKey{Key: v}}
+	case kmip.KeyFormatTypeTransparentRSAPrivateKey:
+		return kmip.KeyMaterial{TransparentRSAPrivateKey: &kmip.TransparentRSAPrivateKey{Modulus: *sampleRSA.N, PrivateExponent: n, PublicExponent: n}}
+	case kmip.KeyFormatTypeTransparentRSAPublicKey:
+		return kmip.KeyMaterial{TransparentRSAPublicKey: &kmip.TransparentRSAPublicKey{Modulus: *sampleRSA.N, PublicExponent: *n}}
+	case kmip.KeyFormatTypeTransparentECDSAPrivateKey:
+		return kmip.KeyMaterial{TransparentECDSAPrivateKey: &kmip.TransparentECDSAPrivateKey{RecommendedCurve: kmip.RecommendedCurveP_256, D: *n}}
+	case kmip.KeyFormatTypeTransparentECPrivateKey:
+		return kmip.KeyMaterial{TransparentECPrivateKey: &kmip.TransparentECPrivateKey{RecommendedCurve: kmip.RecommendedCurveP_256, D: *n}}
+	case kmip.KeyFormatTypeTransparentECDSAPublicKey:
+		return kmip.KeyMaterial{TransparentECDSAPublicKey: &kmip.TransparentECDSAPublicKey{RecommendedCurve: kmip.RecommendedCurveP_256, QString: v}}
+	case kmip.KeyFormatTypeTransparentECPublicKey:
+		return kmip.KeyMaterial{TransparentECPublicKey: &kmip.TransparentECPublicKey{RecommendedCurve: kmip.RecommendedCurveP_256, QString: v}}
+	}
+	return kmip.KeyMaterial{Bytes: &v}
+}
+
 func presenceObject(c Case) (kmip.Object, bool) {
 	t := kftByName[c.Kft]
 	kb := kmip.KeyBlock{KeyFormatType: t, CryptographicAlgorithm: kmip.CryptographicAlgorithmAES, CryptographicLength: 128}
@@ -849,6 +871,10 @@ func presenceObject(c Case) (kmip.Object, bool) {
 	case "component":
 		m, _ := emptied(t)
 		kb.KeyValue = &kmip.KeyValue{Plain: &kmip.PlainKeyValue{KeyMaterial: m}}
+	case "empty-value":
+		kb.KeyValue = &kmip.KeyValue{Plain: &kmip.PlainKeyValue{KeyMaterial: valued(t, []byte{})}}
+	case "short-value":
+		kb.KeyValue = &kmip.KeyValue{Plain: &kmip.PlainKeyValue{KeyMaterial: valued(t, []byte{2})}} // also the prefix of a compressed point
 	case "wrapped":
 		wb := []byte{9, 8, 7, 6, 5, 4, 3, 2, 1, 0, 1, 2, 3, 4, 5, 6, 7, 8, 9, 0, 1, 2, 3, 4}
 		kb.KeyValue = &kmip.KeyValue{Wrapped: &wb}
@@ -1131,7 +1157,7 @@ func TestReplay(t *testing.T) {
 				t.Fatalf("unknown presence object %v", c)
 			}
 			var o presenceOut
-			runPresence(c, obj, c.Missing == "none" || c.Missing == "component", &o) // zero-valued material is material: accessors may return it
+			runPresence(c, obj, c.Missing == "none" || c.Missing == "component" || c.Missing == "empty-value" || c.Missing == "short-value", &o) // zero-valued material is material: accessors may return it
 			n.runs += o.Decoded
 			n.stats["presence"]++
 			n.stats["presence-decoded"] += o.Decoded
